@@ -261,16 +261,60 @@ Fixpoint gc (fuel : nat) (s : fsys) (p : path) (deletePath : bool) {struct fuel}
 Definition garbage_collect (fuel : nat) (s : fsys) (root : path) : fsys * res := gc fuel s root false.
 End GC.
 
-(* ---- vocabulary of the theorems ---- *)
-
-Definition under (p q : path) : Prop := exists r, q = p ++ r.       (* q is p or lies below p *)
-
 Fixpoint is_prefix (p q : path) : bool :=
   match p, q with
   | [], _ => true
   | a :: p', b :: q' => name_eqb a b && is_prefix p' q'
   | _ :: _, [] => false
   end.
+
+(* ---- ownership: RemoveWithPrivileges (files.go) ----
+   Ownership is part of the state: [owners] gives the owner of the entry at each PHYSICAL path. *)
+Definition owners := path -> Z.
+Definition set_owner (o : owners) (q : path) (u : Z) : owners := fun x => if path_eqb x q then u else o x.
+
+(* os.Chown FOLLOWS links: the entry that changes owner is the one the path resolves to *)
+Definition chown (s : fsys) (o : owners) (p : path) (u : Z) : owners * res :=
+  match resolve link_fuel s true p with
+  | Some q => match lookup s q with Some _ => (set_owner o q u, Ok) | None => (o, Err ENotFound) end
+  | None => (o, Err ENotFound)
+  end.
+
+(* platform.RemoveWithPrivileges: rm -r -f -- path as administrator; rm does not follow links *)
+Definition force_remove (s : fsys) (p : path) : fsys * res :=
+  match resolve link_fuel s false p with
+  | Some q => (filter (fun ke => negb (is_prefix q (fst ke))) s, Ok)
+  | None => (s, Err ENotFound)
+  end.
+
+Section Privileges.
+(* the two ordinary attempts (RemoveWithContext).  They may fail for reasons the file-system model does not know
+   (EPERM, EBUSY, ...): the theorems take ANY behaviour that stays at or below the path. *)
+Variable pass1 pass2 : fsys -> path -> fsys * res.
+Variable force : fsys -> path -> fsys * res.    (* ForceRemoveIfPossible *)
+Variable link_check : bool.                     (* the fix: never take ownership through a symbolic link *)
+Variable me : Z.                                (* user.Current() *)
+
+(* commonerrors.Any(err, nil, ErrTimeout, ErrCancelled) *)
+Definition final (r : res) : bool := match r with Ok | Err ECancelled => true | _ => false end.
+
+(* VFS.RemoveWithPrivileges *)
+Definition remove_with_privileges (s : fsys) (o : owners) (p : path) : fsys * owners * res :=
+  let '(s1, r1) := pass1 s p in
+  if final r1 then (s1, o, r1) else
+  let '(o1, rc) := if link_check && is_link (lstat s1 p) then (o, Ok) else chown s1 o p me in
+  match rc with
+  | Ok =>
+      let '(s2, r2) := pass2 s1 p in
+      if final r2 then (s2, o1, r2) else
+      let '(s3, r3) := force s2 p in (s3, o1, r3)
+  | Err _ => let '(s3, r3) := force s1 p in (s3, o1, r3)
+  end.
+End Privileges.
+
+(* ---- vocabulary of the theorems ---- *)
+
+Definition under (p q : path) : Prop := exists r, q = p ++ r.       (* q is p or lies below p *)
 
 (* number of entries at or below p *)
 Definition size_below (s : fsys) (p : path) : nat := length (filter (fun ke => is_prefix p (fst ke)) s).
